@@ -2380,10 +2380,16 @@ func (r resolverQuery) loadNodeModules(importPath string, dirInfo *dirInfo, forb
 		}
 	}
 
-	// Find the parent directory with the "package.json" file
+	// Find the parent directory with the "package.json" file. Like node's
+	// "LOOKUP_PACKAGE_SCOPE", this stops at a directory named "node_modules":
+	// a directory inside "node_modules" that has no "package.json" file is not
+	// part of the package that contains the "node_modules" directory.
 	dirInfoPackageJSON := dirInfo
-	for dirInfoPackageJSON != nil && dirInfoPackageJSON.packageJSON == nil {
+	for dirInfoPackageJSON != nil && dirInfoPackageJSON.packageJSON == nil && !dirInfoPackageJSON.isNodeModules {
 		dirInfoPackageJSON = dirInfoPackageJSON.parent
+	}
+	if dirInfoPackageJSON != nil && dirInfoPackageJSON.isNodeModules {
+		dirInfoPackageJSON = nil
 	}
 
 	// Check for subpath imports: https://nodejs.org/api/packages.html#subpath-imports
